@@ -1040,7 +1040,7 @@ func runHist10(o *hx.Out, d Desc10, origin string) {
 // ---------- generation ----------
 
 var measurements = []string{"m0", "m1"}
-var tagvals = []string{"a", "b", "c"}
+var tagvals = []string{"a", "a!", "b", "c"} // "a" / "a!": series keys whose byte order and composite-key order differ
 var fields = []string{"i0", "i1", "f0", "s0"}
 
 type gen struct {
@@ -1288,6 +1288,13 @@ func designed(o *hx.Out) {
 	runHist10(o, Desc10{Ops: []Op{w(all...), {K: "snap"}, delS("a", 2, 3), delS("b", 2, 5), {K: "restart"}, w(a1), {K: "restart"}}}, "designed")
 	runHist10(o, Desc10{Ops: []Op{w(all...), {K: "snap"}, delS("a", math.MinInt64, 2), delS("b", math.MinInt64, 4), delS("c", 3, 4), {K: "restart"}, w(a1), {K: "restart"}}}, "designed")
 	runHist10(o, Desc10{Ops: []Op{w(all...), {K: "snap"}, delS("a", 5, 6), delS("b", 1, 2), delS("c", 2, 6), delS("a", 1, 1), {K: "restart"}, {K: "snap"}, {K: "restart"}}}, "designed")
+	// series keys where one is a prefix of the other and the next byte sorts below '#': in a file, in the cache, both
+	x1, x5 := ip("m0", "a!", "i0", 1, 11), ip("m0", "a!", "i0", 5, 51)
+	a5 := ip("m0", "a", "i0", 5, 50)
+	both := []Ser{{"m0", "a"}, {"m0", "a!"}}
+	runHist10(o, Desc10{Ops: []Op{w(a1, x1, a5, x5), {K: "snap"}, {K: "del", Series: both, Lo: 1, Hi: 1}, {K: "restart"}, {K: "del", Series: []Ser{{"m0", "a"}}, Lo: 5, Hi: 5}, {K: "restart"}}}, "designed")
+	runHist10(o, Desc10{Ops: []Op{w(a1, x1, a5, x5), {K: "del", Series: both, Lo: 1, Hi: 1}, {K: "restart"}, {K: "del", Series: []Ser{{"m0", "a!"}}, Lo: math.MinInt64, Hi: math.MaxInt64}, {K: "restart"}}}, "designed")
+	runHist10(o, Desc10{Ops: []Op{w(a1, x1), {K: "snap"}, w(a5, x5), {K: "del", I: 1, Series: []Ser{{M: "m0"}}, Lo: 1, Hi: 5}, {K: "restart"}}}, "designed")
 	// overlapping deletes and a compaction in the window
 	runHist10(o, Desc10{Ops: []Op{w(a1, a2, b1), {K: "snap"}, w(c1), {K: "ovl", Series: []Ser{{"m0", "a"}, {"m1", "a"}}, Lo: math.MinInt64, Hi: math.MaxInt64}, {K: "restart"}}}, "designed")
 	runHist10(o, Desc10{Ops: []Op{w(a1, a2, b1), {K: "snap"}, w(a3), {K: "snap"}, {K: "ovl", Series: []Ser{{"m0", "a"}, {"m0", "b"}}, Lo: 1, Hi: 2}, {K: "restart"}, w(a1), {K: "restart"}}}, "designed")
